@@ -100,12 +100,15 @@ package fans
 //@   ensures lastPwmErr == old(lastPwmErr)[fan := (err != nil)]
 //@   modifies pwmWrites, lastPwm, fileInt, lastPwmErr
 
+//@ ghost var enableReads int
 //@ func (*HwMonFan).GetPwmEnabled
 //@   params (fan)
 //@   requires hwWF(fan)
 //@   ensures result1 == nil ==> result0 == fileInt[hwEnablePath(fan)]
 //@   ensures lastReadFailed == (result1 != nil)
-//@   modifies lastReadFailed
+//@   ghostdo enableReads := enableReads + 1
+//@   ensures enableReads == old(enableReads) + 1
+//@   modifies lastReadFailed, enableReads
 
 //@ func (*HwMonFan).Supports
 //@   params (fan, feature)
@@ -272,11 +275,12 @@ package fans
 //@   props C03
 //@   requires hwWF(fan)
 //@   ensures[C03.readback C05] err == nil ==> fileInt[hwEnablePath(fan)] == value || lastReadFailed
+//@   ensures[C05.tolerant C03] enableReads != old(enableReads) && lastReadFailed ==> err == nil
 //@   ghostdo modeWrites[fan] := modeWrites[fan] + 1
 //@   ghostdo lastMode[fan] := value
 //@   ensures modeWrites == old(modeWrites)[fan := old(modeWrites)[fan] + 1] && lastMode == old(lastMode)[fan := value]
 //@   ensures forall p string :: p != hwEnablePath(fan) ==> fileInt[p] == old(fileInt)[p]
-//@   modifies modeWrites, lastMode, fileInt, lastReadFailed
+//@   modifies modeWrites, lastMode, fileInt, lastReadFailed, enableReads
 //@ func (*FileFan).SetPwmEnabled
 //@   params (fan, value)
 //@   ensures err == nil
